@@ -68,6 +68,9 @@ type Behaviour struct {
 	C07Every bool `json:"c07every,omitempty"`
 	// GnuTar: at the end, GNU tar --ignore-zeros must list as many members as the scan (C05 second opinion)
 	GnuTar bool `json:"gnutar,omitempty"`
+	// Witness: "handles" runs the fixed scenarios of known finding K06 (handles that stay open across
+	// other calls, compared with what an ordinary filesystem does) instead of Steps
+	Witness string `json:"witness,omitempty"`
 }
 
 type Finding struct {
@@ -169,6 +172,11 @@ func RunBehaviour(b *Behaviour, ks *sut.KeySet, workRoot string) (res BehResult)
 			return
 		}
 		res.Findings = append(res.Findings, Finding{Prop: prop, Step: step, Call: call.String(), Msg: fmt.Sprintf(f, a...)})
+	}
+
+	if b.Witness == "handles" {
+		handleWitness(inst, &res)
+		return
 	}
 
 	prev, err := snapshotState(inst)
@@ -1013,4 +1021,94 @@ func goroutineDump() string {
 		}
 	}
 	return strings.Join(out, "\n\n")
+}
+
+// handleWitness: what an ordinary filesystem does with a handle that stays open while other calls
+// run, against what the write-back handles of the code do (known finding K06a-c).
+func handleWitness(inst *sut.Instance, res *BehResult) {
+	fsys := inst.FS
+	add := func(f string, a ...interface{}) {
+		res.Findings = append(res.Findings, Finding{Prop: "C02", Step: 0, Call: "handle witness", Msg: fmt.Sprintf(f, a...)})
+	}
+	put := func(p, data string) error {
+		f, err := fsys.OpenFile(p, os.O_RDWR|os.O_CREATE|os.O_TRUNC, 0o666)
+		if err != nil {
+			return err
+		}
+		if _, err := f.Write([]byte(data)); err != nil {
+			_ = f.Close()
+			return err
+		}
+		return f.Close()
+	}
+	get := func(p string) string {
+		b, err := sut.ReadAll(fsys, p)
+		if err != nil {
+			return "<" + err.Error() + ">"
+		}
+		return string(b)
+	}
+	ok, pan := sut.Watchdog(callTimeout, func() {
+		// (a) the file is renamed while the handle is open
+		if err := put("/wa", "one"); err != nil {
+			res.Infra = "witness setup: " + err.Error()
+			return
+		}
+		h, err := fsys.OpenFile("/wa", os.O_RDWR|os.O_APPEND, 0)
+		if err != nil {
+			res.Infra = "witness setup: " + err.Error()
+			return
+		}
+		res.Checks++
+		rerr := fsys.Rename("/wa", "/wb")
+		_, werr := h.Write([]byte("two"))
+		cerr := h.Close()
+		if rerr != nil || werr != nil || cerr != nil || get("/wb") != "onetwo" {
+			add("a handle does not follow its file: open /wa, Rename(/wa,/wb)=%v, Write=%v, Close=%v, then /wb reads %q (an ordinary filesystem: nil, nil, nil, \"onetwo\")", rerr, werr, cerr, get("/wb"))
+		}
+		// (b) attributes changed while the handle is open
+		if err := put("/wc", "one"); err != nil {
+			res.Infra = "witness setup: " + err.Error()
+			return
+		}
+		h, err = fsys.OpenFile("/wc", os.O_RDWR|os.O_APPEND, 0)
+		if err != nil {
+			res.Infra = "witness setup: " + err.Error()
+			return
+		}
+		res.Checks++
+		merr := fsys.Chmod("/wc", 0o600)
+		_, werr = h.Write([]byte("x"))
+		cerr = h.Close()
+		info, serr := fsys.Stat("/wc")
+		if merr != nil || werr != nil || cerr != nil || serr != nil || info.Mode().Perm() != 0o600 {
+			perm := os.FileMode(0)
+			if info != nil {
+				perm = info.Mode().Perm()
+			}
+			add("closing a written handle puts back the attributes the file had when it was opened: Chmod(/wc,0600)=%v while open, Write=%v, Close=%v, then permissions %o (an ordinary filesystem: 600)", merr, werr, cerr, perm)
+		}
+		// (c) truncation and writes are visible only after Sync / Close
+		if err := put("/wd", "one"); err != nil {
+			res.Infra = "witness setup: " + err.Error()
+			return
+		}
+		h, err = fsys.OpenFile("/wd", os.O_RDWR|os.O_TRUNC, 0)
+		if err != nil {
+			res.Infra = "witness setup: " + err.Error()
+			return
+		}
+		res.Checks++
+		afterOpen := get("/wd")
+		_, werr = h.Write([]byte("fresh"))
+		afterWrite := get("/wd")
+		cerr = h.Close()
+		if afterOpen != "" || afterWrite != "fresh" || werr != nil || cerr != nil || get("/wd") != "fresh" {
+			add("truncation and writes through a handle become visible only at Sync / Close: after OpenFile(/wd,O_TRUNC) the file reads %q, after Write(\"fresh\") %q, after Close %q (an ordinary filesystem: \"\", \"fresh\", \"fresh\")", afterOpen, afterWrite, get("/wd"))
+		}
+	})
+	if !ok || pan != nil {
+		add("handle witness did not return / panicked: %v", pan)
+		res.Hang = !ok
+	}
 }
